@@ -286,10 +286,10 @@ func (m *VM) applyMut(data, donor []byte, mu Mut) ([]byte, bool) {
 		p := abs(mu.Pos) % (len(env.FinalSignature) * 8)
 		env.FinalSignature[p/8] ^= 1 << uint(p%8)
 	case "last_key_flip":
-		p := abs(mu.Pos) % (len(all[n-1].Key) * 8)
 		if len(all[n-1].Key) == 0 {
 			return nil, false
 		}
+		p := abs(mu.Pos) % (len(all[n-1].Key) * 8)
 		all[n-1].Key[p/8] ^= 1 << uint(p%8)
 	case "block_flip":
 		if len(all[i].Block) == 0 {
